@@ -464,3 +464,7 @@ O("C07.tzob_zif", "C07", "h_C08_epoch.c", "h_C07_tzob_zif",
   kind="bounded", bound="3 zones, 4 consecutive lookups", unwind=20, solver=["minisat", "kissat"],
   timeout={"quick": 600, "thorough": 1800}, replay=False, replay_note="zif_open/zif_close stubs",
   assumptions=["zif_open/zif_close replaced by stubs that identify a zone file by its name"])
+O("C02.instant_soup", ["C02", "C07"], "h_C16.c", "h_C02_instant_soup",
+  "instant_soup (RDATE/EXDATE values): a timed value with its own TZID is converted to UTC with its own zone; a value without TZID is taken unchanged",
+  ["instant_soup"], solver=["minisat", "kissat"], timeout={"quick": 600, "thorough": 1800}, unwind=6, replay=False, replay_note="echs_instant_utc stub records its zone argument",
+  assumptions=["echs_instant_utc replaced by a recording stub (the conversion itself: C07.offs / C07.utc_local)"])
